@@ -102,6 +102,20 @@ impl DiskCache {
         Ok(state.total_bytes)
     }
 
+    /// Verification hook: a read-only copy of the tracked state (counters and, per key, the items in vector order
+    /// as (range start, range end, len, checksum)).
+    #[cfg(xet_verif)]
+    #[allow(clippy::type_complexity)]
+    pub fn verif_snapshot(&self) -> Result<(usize, u64, Vec<(Key, Vec<(u32, u32, u64, u32)>)>), ChunkCacheError> {
+        let state = self.state.lock()?;
+        let items = state
+            .inner
+            .iter()
+            .map(|(k, v)| (k.clone(), v.iter().map(|i| (i.range.start, i.range.end, i.len, i.checksum)).collect()))
+            .collect();
+        Ok((state.num_items, state.total_bytes, items))
+    }
+
     /// initialize will create a new DiskCache with the capacity and cache root based on the config
     /// the cache file system layout is rooted at the provided config.cache_directory and initialize
     /// will attempt to load any pre-existing cache state into memory.
@@ -243,6 +257,8 @@ impl DiskCache {
             let Some(cache_item) = self.find_match(key, range)? else {
                 return Ok(None);
             };
+            #[cfg(xet_verif)]
+            crate::verif::sched_point("get:after_find_match");
 
             let path = self.item_path(key, &cache_item)?;
 
@@ -323,6 +339,9 @@ impl DiskCache {
             }
         }
 
+        #[cfg(xet_verif)]
+        crate::verif::sched_point("put:after_find_match");
+
         let header = CacheFileHeader::new(chunk_byte_indices);
         let mut header_buf = Vec::with_capacity(header.header_len());
         header.serialize(&mut header_buf)?;
@@ -347,6 +366,9 @@ impl DiskCache {
             fw.write_all(data)?;
             fw.close()?;
         }
+
+        #[cfg(xet_verif)]
+        crate::verif::sched_point("put:after_file_write");
 
         // evict items after ensuring the file write but before committing to cache state
         // to avoid removing new item.
@@ -392,6 +414,9 @@ impl DiskCache {
 
         // release lock
         drop(state);
+
+        #[cfg(xet_verif)]
+        crate::verif::sched_point("put:after_commit");
 
         // remove files after done with modifying in memory state and releasing lock
         for path in overlapping_item_paths {
@@ -546,6 +571,9 @@ impl DiskCache {
                 state.num_items -= 1;
             }
         }
+
+        #[cfg(xet_verif)]
+        crate::verif::sched_point("remove_item:after_state_update");
 
         let path = self.item_path(key, cache_item)?;
 
